@@ -8,6 +8,7 @@ and the polynomial form is given `(cos φ, sin φ)` of the same angle.
 -/
 import Model.MaskShapes
 import Proofs.MaskShapes
+import Proofs.MaskShapesAbstract
 import Mathlib.Analysis.Real.Sqrt
 import Mathlib.Analysis.Complex.Norm
 import Mathlib.Analysis.Complex.Trigonometric
@@ -109,5 +110,14 @@ theorem ellipticalAnnularCode_eq_poly (innerMajor innerQ innerPhi outerMajor out
           ys xs := by
   simp only [Impl.ellipticalAnnularCode, Impl.ellipticalAnnularPoly, ellRadiusCode_eq, sqrtLe_real,
     leSqrt_real]
+
+/-- the libm contract of Proofs/MaskShapesAbstract.lean holds for the real functions -/
+theorem libmSpec_real : LibmSpec Real.sqrt realArctan2 Real.sin Real.cos where
+  sqrt_nonneg := fun x _ => Real.sqrt_nonneg x
+  sqrt_mul_self := fun _ hx => Real.mul_self_sqrt hx
+  polar_cos := fun y x => (polar_decomposition y x).1
+  polar_sin := fun y x => (polar_decomposition y x).2
+  cos_add := Real.cos_add
+  sin_add := Real.sin_add
 
 end Model
